@@ -30,12 +30,17 @@ PLAN = {
 
 
 def gen_case(rng, tier, idx):
-    if idx % 5 == 4:
-        # smallest containing clique sorted late among larger ones (the F3 shape)
+    if idx % 5 in (3, 4):
+        # smallest containing clique sorted late among larger ones (the F3 shape); or (idx % 5 == 3) two containing
+        # cliques with exactly the same number of cells, so that only the tie-break decides where a measurement is filed
         attrs, shape = ['A', 'B', 'C', 'D'], [3, 3, 2, 2]
+        projs = [('A', 'C'), ('B', 'D'), ('C', 'D'), ('C',), ('D',)]
+        if idx % 5 == 3:
+            sb = int(gen.pick(rng, [2, 3]))
+            attrs, shape = ['A', 'B', 'C', 'D'], [int(gen.pick(rng, [3, 4])), sb, int(gen.pick(rng, [2, 3])), sb]
+            projs = [('A', 'D'), ('C', 'D'), ('B', 'C'), ('C',)] + ([('D',)] if rng.rand() < 0.5 else [])
         p = [int(i) for i in rng.permutation(4)]
         attrs, shape = [attrs[i] for i in p], [shape[i] for i in p]
-        projs = [('A', 'C'), ('B', 'D'), ('C', 'D'), ('C',), ('D',)]
         projs = [gen.shuffled(rng, t) for t in projs]
         if rng.rand() < 0.5:
             projs.append(gen.pick(rng, [('A',), ('B',), ('C',)]))
@@ -46,10 +51,10 @@ def gen_case(rng, tier, idx):
             kind = gen.pick(rng, ['none', 'identity', 'dense', 'scaled'])
             Q = measure.make_Q(rng, kind, n)
             x = oracles.marginal(X, attrs, list(t)).reshape(-1)
-            s = float(gen.pick(rng, [0.5, 1.0, 1.0, 3.0]))
+            s = float(gen.pick(rng, [0.5, 1.0, 1.0, 3.0])) if idx % 5 == 4 else float(gen.pick(rng, [0.3, 1.0, 3.0]))
             meas.append(dict(Q=Q, kind=kind, y=(x if Q is None else Q @ x) + rng.normal(0, s, size=(n if Q is None else Q.shape[0])),
                              sigma=s, proj=t))
-        structure = 'grouping_trap'
+        structure = 'grouping_trap' if idx % 5 == 4 else 'tie_trap'
         N = 100.0
     else:
         attrs, shape = gen.domain(rng, 1, 5, sizes=(1, 2, 3, 4), max_cells=256)
